@@ -103,6 +103,16 @@ def check_c18(run):
         sid += 1
         sessions.append({"id": sid, "kind": "conc", "target": "engine", "gated": rng.random() < 0.9,
                          "blocks": blocks, "nest": rng.choice(["plain", "if", "for"])})
+    # wide blocks: many more children than cores / any fixed worker count, from none to all of them failing
+    for i in range(40 if quick else 600):
+        n = rng.randint(9, 24)
+        pf = rng.choice([0.0, 0.2, 0.6, 0.9, 1.0])
+        kfirst = rng.choice([0, 0, 8, n // 2])           # the first k children fail whatever pf says
+        bl = [{"id": "c%d" % (c + 1), "kind": rng.choice([k for k in kinds if k != "asgI" or c < 8]),
+               "fails": c < kfirst or rng.random() < pf, "val": 100 + c + 1} for c in range(n)]
+        sid += 1
+        sessions.append({"id": sid, "kind": "conc", "target": "engine", "gated": rng.random() < 0.7,
+                         "blocks": [bl], "nest": rng.choice(["plain", "if", "for"])})
     ns = _run(run, sessions, "conc", "ConcTrace.tla", "ConcTrace.cfg", conc_describe)
     if getattr(run, "collect", None) is not None:
         return 0
@@ -116,7 +126,8 @@ def check_c18(run):
     return run.finish("model_checking",
                       "rule bodies = sequences of conc blocks; every body shape with <=3 (thorough: 4) children over the five child "
                       "kinds (local assignment, injected-field assignment, function, method, three-level call) x failing subsets, "
-                      "and two-block bodies, enumerated by TLC; plus seeded random bodies (<=3 blocks, <=8 children); children are "
+                      "and two-block bodies, enumerated by TLC; plus seeded random bodies (<=3 blocks, <=8 children) and wide blocks (9-24 children, "
+                      "0-100% failing); children are "
                       "held on gates and released one at a time; distinct = distinct (blocks, nesting)")
 
 
